@@ -95,6 +95,8 @@ let run_o mvz toks =
 let parse_a tok = match String.split_on_char ':' tok with
   | ["cd"; i] -> ACtorDefault (nn i) | ["cv"; i; t; v] -> ACtorValue (nn i, nn t, nn v)
   | ["cc"; i; j] -> ACtorCopy (nn i, nn j) | ["d"; i] -> ADtor (nn i)
+  (* Any has no move constructor / move assignment: an rvalue argument selects the copy operations *)
+  | ["mc"; i; j] -> ACtorCopy (nn i, nn j) | ["ma"; i; j] -> AAssignCopy (nn i, nn j)
   | ["av"; i; t; v] -> AAssignValue (nn i, nn t, nn v) | ["ac"; i; j] -> AAssignCopy (nn i, nn j)
   | ["get"; i; t] -> AGet (nn i, nn t) | ["set"; i; t; v] -> ASet (nn i, nn t, nn v)
   | ["is"; i; t] -> AIs (nn i, nn t) | ["valid"; i] -> AValid (nn i)
